@@ -20,7 +20,9 @@ UNFMT = "fn  f{i}( x:u32 )->u32{{x+{i}}}\n"
 ROOT_DECL = "mod m1;\nmod m2;\n"
 
 
-STALE = "// left over from an earlier run\n"
+# longer than any formatted text of the scenario files: a leftover that is overwritten without
+# being truncated shows up as a `partial` file
+STALE = "// left over from an earlier run\n" + "".join(f"// stale line {k} of an older, longer text\n" for k in range(40))
 PRES = {"none": (), "bk": ("bk",), "tmp": ("tmp",), "both": ("tmp", "bk")}
 
 
